@@ -1,4 +1,5 @@
 import ColoVerif.Model.Ispd
+import ColoVerif.Model.IspdText
 import Driver.Common
 import Driver.CircuitIO
 /-
@@ -11,6 +12,19 @@ Driver for C20 (harness/h_C20.cpp).
   files … endfiles                  (records of hand-made files, same syntax as printed by `export`)
   read                              -> `Ispd.read files`, printed as above
 
+Text level (Model/IspdText.lean); `<e…>` is a line/path escaped as `\\s` (space) `\\t` (tab) `\\\\` `\\u<dec>;` and `\\e`
+for the empty line:
+  exporttext <eprefix>              -> `aux|nodes|pl|nets|scl <eline>` for every line of the five files that
+                                       `Circuit::exportIspd(prefix)` writes
+  readbackfs <eprefix>              -> `Text.readIspd (exportFS prefix c) exists (prefix.aux)`, printed as `readback`;
+                                       the result becomes the "Python circuit" of the placement ops below
+  fsreset / file <epath> / l <eline>   (a file system: start a file, append a line to the last file)
+  readispd exists|missing|dir <efilename> <eentry>*   -> `Text.readIspd fs kind filename`, printed as `readback`
+  writeplacement                    -> `sol <eline>` for every line of `write_placement` on the Python circuit
+  loadback                          -> `load_placement(write_placement(c))` into the Python circuit with positions
+                                       zeroed and orientations N, printed as `readback`
+  loadplacement <epath>             -> `load_placement` of that file of the file system into the Python circuit
+
 Records:  hdr <numNodes> <numTerminals> <numNets> <numPins> <numRows>   (`none` when the line is absent)
           node <name> <w> <h> <terminal>      pl <name> <x> <y> <orient> <fixedMarker>
           netdeg <degree> <name>              pin <cell> <num/den> <num/den>
@@ -21,6 +35,37 @@ open ColoVerif ColoVerif.Ispd Driver
 structure St where
   c : Circuit := ⟨[], [], []⟩
   f : Files := ⟨none, none, [], [], none, none, [], none, []⟩
+  fs : List (Text.Line × List Text.Line) := []
+  py : Except Err Circuit := .error .runtime
+
+partial def unesc : List Char → List Char
+  | '\\' :: 's' :: r => ' ' :: unesc r
+  | '\\' :: 't' :: r => '\t' :: unesc r
+  | '\\' :: '\\' :: r => '\\' :: unesc r
+  | '\\' :: 'e' :: r => unesc r
+  | '\\' :: 'u' :: r =>
+    Char.ofNat ((String.ofList (r.takeWhile (· != ';'))).toNat?.getD 63) :: unesc ((r.dropWhile (· != ';')).drop 1)
+  | c :: r => c :: unesc r
+  | [] => []
+
+def un (s : String) : Text.Line := unesc s.toList
+
+def esc (l : Text.Line) : String :=
+  if l.isEmpty then "\\e"
+  else String.ofList (l.flatMap fun c =>
+    if c = ' ' then ['\\', 's'] else if c = '\t' then ['\\', 't'] else if c = '\\' then ['\\', '\\']
+    else if c.toNat < 33 || c.toNat > 126 then ("\\u" ++ toString c.toNat ++ ";").toList else [c])
+
+def tagged (tag : String) (ls : List Text.Line) : List String := ls.map (fun l => tag ++ " " ++ esc l)
+
+def fsOf (files : List (Text.Line × List Text.Line)) : Text.FS := fun p => (files.find? (·.1 = p)).map (·.2)
+
+def appendLine : List (Text.Line × List Text.Line) → Text.Line → List (Text.Line × List Text.Line)
+  | [], _ => []
+  | [f], l => [(f.1, f.2 ++ [l])]
+  | f :: g :: r, l => f :: appendLine (g :: r) l
+
+def pyNames (c : Circuit) : List Text.Line := (List.range c.cells.length).map Text.cellTok
 
 def showRat (q : Rat) : String := s!"{q.num}/{q.den}"
 
@@ -73,6 +118,33 @@ def step (s : St) (ws : List String) : St × List String :=
   | ["pin", c, dx, dy] => ({ s with f := { s.f with nets := addToLastNet s.f.nets ⟨c, parseRat dx, parseRat dy⟩ } }, [])
   | ["row", a, b, c, d, e, o] => ({ s with f := { s.f with rows := s.f.rows ++ [⟨int! a, int! b, int! c, int! d, int! e, o⟩] } }, [])
   | ["endfiles"] => (s, [])
+  | ["exporttext", pre] =>
+    (s, tagged "aux" (Text.auxText (un pre)) ++ tagged "nodes" (Text.nodesText s.c) ++ tagged "pl" (Text.plText s.c) ++
+        tagged "nets" (Text.netsText s.c) ++ tagged "scl" (Text.sclText s.c))
+  | ["readbackfs", pre] =>
+    let r := Text.readIspd (Text.exportFS (un pre) s.c) .exists_ (un pre ++ ".aux".toList)
+    ({ s with py := r }, showRead r)
+  | ["fsreset"] => ({ s with fs := [] }, [])
+  | ["file", p] => ({ s with fs := s.fs ++ [(un p, [])] }, [])
+  | ["l", l] => ({ s with fs := appendLine s.fs (un l) }, [])
+  | "readispd" :: kind :: fname :: entries =>
+    let k : Text.PathKind := if kind = "dir" then .dir (entries.map un) else if kind = "missing" then .missing else .exists_
+    let r := Text.readIspd (fsOf s.fs) k (un fname)
+    ({ s with py := r }, showRead r)
+  | ["writeplacement"] =>
+    match s.py with
+    | .ok c' => (s, tagged "sol" (Text.writePlacementText (pyNames c') c'))
+    | .error _ => (s, [])
+  | ["loadback"] =>
+    match s.py with
+    | .ok c' =>
+      let blank : Circuit := { c' with cells := c'.cells.map fun cl => { cl with x := 0, y := 0, orient := .N } }
+      (s, showRead (Text.loadPlacement ((pyNames c').map String.ofList) (Text.writePlacementText (pyNames c') c') blank))
+    | .error _ => (s, [])
+  | ["loadplacement", p] =>
+    match s.py, fsOf s.fs (un p) with
+    | .ok c', some lines => (s, showRead (Text.loadPlacement ((pyNames c').map String.ofList) lines c'))
+    | _, _ => (s, [])
   | ["read"] => (s, showRead (read s.f))
   | ["end"] => (s, [])
   | [] => (s, [])
